@@ -120,6 +120,25 @@ def k40(args):
         elif t == 11:
             model.add_knowledge(objs[op[1]], world=world_of(op[2]))
             res.append([dump(objs)])
+        elif t == 17:
+            # labels per object; per object the supervised loss rescaled to the sum of squared errors (exact on the 1/8 grid)
+            out = []
+            labs = {}
+            for i, d in op[1]:
+                labs.setdefault(i, []).extend(d)
+            for i, d in labs.items():
+                model.add_labels({objs[i]: {gkey(g): (float(sx.q(b[0])), float(sx.q(b[1]))) for g, b in d}})
+            for i, o in enumerate(objs):
+                d = labs.get(i, [])
+                have = {tuple(int(c[1:]) for c in g) for g in o.grounding_table}
+                present = [g for g, b in d if tuple(g) in have]
+                v = o._supervised_loss() if d else None
+                if v is None or not present:
+                    out.append(-1 if v is None else [F(-2), len(present)])
+                else:
+                    n = len(present)
+                    out.append([F(round(float(v) * 2 * n * 4096), 4096), n])
+            res.append(out)
         elif t == 14:
             from lnn import Loss
             res.append([fr(model.loss_fn([Loss.CONTRADICTION])[0])])
